@@ -562,7 +562,7 @@ for _i, (_src, _v) in enumerate(LITERALS):
     _T13 += "\n\ndef lit_%d():\n    return dds.keep(\"/t13/a\", h1, %s)\n" % (_i, _src)
 _t(
     "T13",
-    [PKG, ("tq.m1", {"a": HEAD + _T13})],
+    [PKG, ("tq.m1", {"a": HEAD + _T13, "b": HEAD + _T13.replace('def g3(x, y=5, z="k"):', 'def g3(x, y=9, z="k"):')})],  # b: a default edited
     leaves=[],
     entry=("tq.m1", "root_pos"),
     kept=["/t13/a"],
